@@ -164,6 +164,14 @@ def c18(pid, tier, replay):
                         "the format actually used is read from the output with encoding/json only"],
         "replay_whole_script": True,
     }
+    def prepare(scratch, plan, vh):
+        # behaviours of Config.tla (simulation) are executed on the real constructors as well
+        dest = scratch.path("config-scripts.ndjson")
+        ns, gen = graph.export_scripts(scratch, 160 if tier == Q else 1600, 12, dest, cfg="Config_sim.cfg", module="Config")
+        plan["jobs"] = plan["jobs"] + [{"cmd": ["config-run", "--n", "0", "--scripts", dest], "label": "tlc-export"}]
+        plan["extra_coverage"] = {"tlc_exported_histories": ns}
+
+    plan["prepare"] = prepare
     return simple.run_simple(pid, tier, plan, replay)
 
 
@@ -189,6 +197,15 @@ def c19(pid, tier, replay):
                         "still decodes to a document with the requested identifier cannot be told from a valid one without a checksum",
                         "permission faults are real only when the check can drop to uid 65534 (setpriv); recorded in the trace"],
     }
+
+    def prepare(scratch, plan, vh):
+        # behaviours of Store.tla (simulation, with its fault actions) are executed on the real backend as well
+        dest = scratch.path("store-scripts.ndjson")
+        ns, gen = graph.export_scripts(scratch, 96 if tier == Q else 960, 13, dest, cfg="Store_sim.cfg", module="Store")
+        plan["jobs"] = plan["jobs"] + [{"cmd": ["store-run", "--n", "0", "--scripts", dest], "label": "tlc-export"}]
+        plan["extra_coverage"] = {"tlc_exported_histories": ns}
+
+    plan["prepare"] = prepare
     return simple.run_simple(pid, tier, plan, replay)
 
 
